@@ -36,6 +36,39 @@ replay)
 	build
 	exec "$BIN" replay "$2"
 	;;
+race)
+	# sanitizer build: independent containers on 16 goroutines under the race detector (implies checkptr)
+	mkdir -p "$BUILD" "$ROOT/reports" "$ROOT/.work"
+	sed "s#=> /repo#=> $REPO#" "$ROOT/harness/go.mod" > "$BUILD/go.mod"
+	cp "$REPO/go.sum" "$BUILD/go.sum"
+	(cd "$ROOT/harness" && go build -race -tags verif -modfile="$BUILD/go.mod" -o "$BIN-race" .) || { echo "INCONCLUSIVE reason=race-build-failed"; exit 3; }
+	rm -f "$ROOT/.work"/race.log.*
+	out=$ROOT/reports/race.txt
+	: > "$out"
+	for prof in general decor faults groups scopes; do
+		GORACE="halt_on_error=0 exitcode=0 log_path=$ROOT/.work/race.log" "$BIN-race" stress -g 16 -n "${VERIF_RACE_N:-600}" -seed "${VERIF_SEED:-1}" -profile $prof >> "$out" 2>&1 || true
+	done
+	races=$(cat "$ROOT/.work"/race.log.* 2>/dev/null | grep -c "WARNING: DATA RACE" || true)
+	fatal=$(grep -c "fatal error" "$out" || true)
+	echo "race detector reports: $races; fatal errors (checkptr etc.): $fatal" >> "$out"
+	cat "$out"
+	if [ "$races" != "0" ]; then mkdir -p "$ROOT/reports"; cat "$ROOT/.work"/race.log.* | head -200 > "$ROOT/reports/race-reports.txt"; fi
+	rm -f "$ROOT/.work"/race.log.* "$BIN-race"
+	;;
+cover)
+	# reach: statement coverage of dig by the monitored workloads (not an oracle)
+	mkdir -p "$BUILD" "$ROOT/reports" "$ROOT/.work/cov"
+	sed "s#=> /repo#=> $REPO#" "$ROOT/harness/go.mod" > "$BUILD/go.mod"
+	cp "$REPO/go.sum" "$BUILD/go.sum"
+	(cd "$ROOT/harness" && go build -cover -coverpkg=digverif,go.uber.org/dig,go.uber.org/dig/internal/dot,go.uber.org/dig/internal/graph,go.uber.org/dig/internal/digreflect,go.uber.org/dig/internal/digclock -tags verif -modfile="$BUILD/go.mod" -o "$BIN-cover" .) || { echo "INCONCLUSIVE reason=cover-build-failed"; exit 3; }
+	rm -rf "$ROOT/.work/cov"; mkdir -p "$ROOT/.work/cov"
+	for p in C01 C04 C05 C06 C07 C12 C13 C14 C15 C16 C17 C18 C19 C20; do
+		GOCOVERDIR="$ROOT/.work/cov" "$BIN-cover" check -prop $p -tier quick -seed "${VERIF_SEED:-1}" -root "$ROOT" -out "$ROOT/.work/covout" -scale 0.1 > /dev/null 2>&1
+	done
+	(cd "$ROOT/harness" && go tool covdata percent -i="$ROOT/.work/cov" 2>&1 | grep "go.uber.org/dig") | tee "$ROOT/reports/coverage.txt"
+	(cd "$ROOT/harness" && go tool covdata textfmt -i="$ROOT/.work/cov" -o "$ROOT/.work/cov.txt" && GOFLAGS="$GOFLAGS -modfile=$BUILD/go.mod" go tool cover -func="$ROOT/.work/cov.txt" 2>/dev/null | grep -v "100.0%" | grep "go.uber.org/dig" | sort -k3 -n | head -60) >> "$ROOT/reports/coverage.txt"
+	rm -rf "$ROOT/.work/cov" "$ROOT/.work/covout" "$ROOT/.work/cov.txt" "$BIN-cover"
+	;;
 run)
 	build
 	shift
